@@ -732,6 +732,54 @@ class World(object):
         self.check_unchanged(spec["in"], name, "abort")
         return None
 
+    def op_abort_sweep(self, op, rng):
+        """F3 as crash-point enumeration: the same call aborted at EVERY k-th line event (stride 1 = every
+        instant at line granularity), arguments re-read and the call re-issued after each abort."""
+        spec = op["call"]
+        cs = self._call_spec(spec)
+        if cs is None:
+            op["skipped"] = True
+            return None
+        name, arg = cs
+        key = self.ensure_shadow(spec)
+        if self.stop:
+            return None
+        thunk = lambda: api_call(name, arg.value)  # noqa: E731
+        if "n_lines" not in op:
+            n, _ = sched.count_lines(thunk)
+            op["n_lines"] = n
+        n = op["n_lines"]
+        stride = max(1, op.get("stride", 1))
+        kind = op.get("exc", "SimAbort")
+        fired_n = 0
+        self._cur_inputs = set(spec["in"])
+        for k in range(op.get("offset", 1), n + 1, stride):
+            fired, where, out = sched.run_with_abort(thunk, k, kind)
+            if not fired:
+                continue
+            fired_n += 1
+            self.check_unchanged(spec["in"], name, "abort")
+            if self.stop:
+                return None
+            out2 = sched._outcome(thunk)
+            ofp = self.outcome_fp(name, out2)
+            if self.first_result[key] != ofp:
+                f = self.first_result[key]
+                loc = "%s->%s" % (f[0] if f[0] == "ok" else "raise:" + f[1], ofp[0] if ofp[0] == "ok" else "raise:" + ofp[1])
+                self.violate("P4-after-abort-differs", name, loc, {"first": f, "now": ofp, "where": where, "k": k}, "abort")
+                if self.stop:
+                    return None
+        self.api_ops += fired_n
+        self.event("abort-sweep", name, tuple(spec["in"]), kind, n, stride, fired_n)
+        self.count("fault_abort_sweep")
+        self.count("fault_abort", fired_n)
+        self.count("abort_sweep_points", fired_n)
+        if stride == 1:
+            self.count("abort_sweep_exhaustive_calls")
+        self.faults_fired += 1
+        self.check_all_unchanged(name, "abort")
+        return None
+
     def op_preempt(self, op, rng):
         """F4: 2-3 callers interleaved at line granularity under a seeded schedule."""
         specs = op["calls"]
